@@ -165,6 +165,32 @@ theorem C04_old_roots (H : Bytes → Bytes) (P0 : PStore) (b : Trie) (told : Nod
   have := C04_crash H P0 b told 2 hold hf
   simpa [saveStream] using this
 
+/-- **Re-saving after a crash converges.**  Re-executing a round is re-evaluating the same function, so it yields the
+    same trie `b`; saving it over the state left by ANY prefix of the interrupted save gives, for every key and every
+    version, the same store as the uninterrupted save. -/
+theorem C04_resave (H : Bytes → Bytes) (P0 : PStore) (b : Trie) (n : Nat) :
+    let Pk := P0.applyAll ((saveStream H b).take n)
+    (∀ x, Map.get (Pk.applyAll (saveStream H b)).nodes x = Map.get (P0.applyAll (saveStream H b)).nodes x) ∧
+    (∀ v, Map.get (Pk.applyAll (saveStream H b)).dead v = Map.get (P0.applyAll (saveStream H b)).dead v) := by
+  match n with
+  | 0 => intro Pk; exact ⟨fun _ => rfl, fun _ => rfl⟩
+  | 1 =>
+    intro Pk
+    refine ⟨fun x => ?_, fun v => ?_⟩
+    · simp only [Pk, saveStream, List.take, PStore.applyAll, List.foldl, PStore.apply]
+      exact Map.get_putAll_idem _ _ x
+    · simp [Pk, saveStream, PStore.applyAll, PStore.apply]
+  | n + 2 =>
+    intro Pk
+    have ht : (saveStream H b).take (n + 2) = saveStream H b := by simp [saveStream]
+    refine ⟨fun x => ?_, fun v => ?_⟩
+    · simp only [Pk, ht]
+      simp only [saveStream, PStore.applyAll, List.foldl, PStore.apply]
+      exact Map.get_putAll_idem _ _ x
+    · simp only [Pk, ht]
+      simp only [saveStream, PStore.applyAll, List.foldl, PStore.apply, Map.get_put]
+      split <;> rfl
+
 /-- non-vacuity of `C04_crash`: an old one-leaf tree survives every prefix of the save of another leaf -/
 example (n : Nat) :
     let old : Ref := ⟨[], .leaf 1 [1] [65]⟩
